@@ -169,6 +169,57 @@ class VCtx:
                 return True
         return self.check(name, cond)
 
+    def check_equal(self, name, xs, ys):
+        """
+        obligation: xs[i] == ys[i] for all i.  Pairs that are polynomial identities are decided exactly by normal forms
+        (pyvc.poly: holds for all values, no path condition needed); what remains goes to the SMT solvers as one conjunction.
+        """
+        xs, ys = list(xs), list(ys)
+        if len(xs) != len(ys):
+            return self.check(name, False)
+        if not self.symbolic:
+            return self.check(name, all(bool(x == y) for x, y in zip(xs, ys)))
+        from . import poly
+        import z3
+        cache, rest, differ = {}, [], []
+        for x, y in zip(xs, ys):
+            if sym.is_sym(x) or sym.is_sym(y):
+                try:
+                    tx, ty = sym._coerce2(x, y)
+                except Unsupported:
+                    rest.append(x == y)
+                    continue
+                if tx.get_id() == ty.get_id():
+                    continue
+                r = poly.identical(tx, ty, cache)
+                if r is True:
+                    continue
+                if r is False:
+                    differ.append((tx, ty))
+                rest.append(x == y)
+            elif not (x == y):
+                rest.append(False)
+        if not rest:
+            self.result.record(name, 'proved', 'poly', None)
+            return True
+        # normal forms differ: look for a point where the two sides differ (exact evaluation), admissible on this path
+        for tx, ty in differ[:3]:
+            reals = {c.get_id(): (nm, c) for nm, c in self.p.inputs.items() if z3.is_real(c) or z3.is_int(c)}
+            w = poly.witness(tx, ty, list(reals), cache)
+            if w is None:
+                continue
+            self.p._settle()
+            asg = [c == z3.RealVal(str(w[i])) if z3.is_real(c) else c == int(w[i]) for i, (nm, c) in reals.items() if w[i].denominator == 1 or z3.is_real(c)]
+            self.p.solver.push()
+            self.p.solver.add(*asg)
+            ok = self.p.solver.check()
+            model = self.p.extract(self.p.solver.model()) if ok == z3.sat else None
+            self.p.solver.pop()
+            if model is not None:
+                self.result.record(name, 'failed', 'poly', model, approx=self.p.approx)
+                return False
+        return self.check(name, sym.And(*rest))
+
     def cover(self, name):
         self.result.covers.add(name)
 
